@@ -16,6 +16,6 @@ cp /repo/Cargo.lock $wt/Cargo.lock 2>/dev/null
 VERIF_REPO=$wt "$@"
 rc=$?
 tag=$(python3 -c "import hashlib;print(hashlib.sha1(b'$wt').hexdigest()[:8])")
-rm -rf /verif/target/*-$tag /verif/build/*-$tag
+rm -rf /verif/target/*-$tag* /verif/build/*-$tag*
 git -C /repo worktree remove --force $wt
 exit $rc
